@@ -583,6 +583,45 @@ func c13R3(p *Prog, r *Report) {
 	bsig := copyc.Fn.Type().(*types.Signature)
 	l2r, r2l := copyc.ResultVar(0), copyc.ResultVar(1)
 	r.Check(bsig.Results().At(0).Name() == "nl2r" && bsig.Results().At(1).Name() == "nr2l", rule, "netio.BidirectionalCopy:result-roles", copyc.Pos(), "results are (left-to-right, right-to-left)", "BidirectionalCopy's result roles changed")
+	// ... and inside BidirectionalCopy the first count returned is that of the copy INTO the second
+	// parameter FROM the first (left to right), the second that of the opposite copy — through the
+	// variables the two io.Copy results are assigned to, in the function or its goroutine literal
+	if bc := p.CtxOfObj(copyc.Fn); bc != nil {
+		binfo := bc.Info()
+		left, right := bc.ParamObj(0), bc.ParamObj(1)
+		countOf := map[string]types.Object{} // "l2r"/"r2l" -> variable receiving the copy's count
+		for _, c := range allCtxs(p, bc) {
+			for _, cs := range c.AllCalls() {
+				if cs.Fn == nil || cs.Fn.Name() != "Copy" || cs.Fn.Pkg() == nil || cs.Fn.Pkg().Path() != "io" || len(cs.Call.Args) != 2 {
+					continue
+				}
+				dst, src := objOf(binfo, cs.Call.Args[0]), objOf(binfo, cs.Call.Args[1])
+				switch {
+				case dst == right && src == left:
+					countOf["l2r"] = cs.ResultVar(0)
+				case dst == left && src == right:
+					countOf["r2l"] = cs.ResultVar(0)
+				}
+			}
+		}
+		okRoles := countOf["l2r"] != nil && countOf["r2l"] != nil
+		for _, ret := range bc.Returns() {
+			rs, isRet := bc.G.V[ret].Node.(*ast.ReturnStmt)
+			if !isRet {
+				continue
+			}
+			var r0, r1 types.Object
+			if len(rs.Results) >= 2 {
+				r0, r1 = objOf(binfo, rs.Results[0]), objOf(binfo, rs.Results[1])
+			} else {
+				r0, r1 = bc.ResultObj(0), bc.ResultObj(1)
+			}
+			if r0 != countOf["l2r"] || r1 != countOf["r2l"] {
+				okRoles = false
+			}
+		}
+		r.Check(okRoles, rule, "netio.BidirectionalCopy:counts-returned-in-order", p.posStr(bc.Body.Pos()), "result 0 is the count of io.Copy(right, left), result 1 that of io.Copy(left, right)", "BidirectionalCopy does not return (count of the copy into right from left, count of the copy into left from right) in that order: every caller's uplink and downlink figures are swapped")
+	}
 	csig := coll.Fn.Type().(*types.Signature)
 	for i := 1; i < csig.Params().Len(); i++ {
 		pn := csig.Params().At(i).Name()
